@@ -55,10 +55,12 @@ bool ParentedEntity::hasAncestor(const ParentedEntityPtr &entity) const
 {
     bool hasAncestor = false;
     ParentedEntityPtr parent = pFunc()->mParent.lock();
-    if (parent == entity) {
-        hasAncestor = true;
-    } else if (parent) {
-        hasAncestor = parent->hasAncestor(entity);
+    if (parent) {
+        if (parent == entity) {
+            hasAncestor = true;
+        } else {
+            hasAncestor = parent->hasAncestor(entity);
+        }
     }
 
     return hasAncestor;
